@@ -161,15 +161,37 @@ func addScrubFieldsToSelectionSet(ctx *PlanningContext, selectionSet ast.Selecti
 }
 
 func addSelectionSetToSanitizedResult(s ast.SelectionSet, ss ...ast.Selection) ast.SelectionSet {
-	ss = lo.Filter(ss, func(sel ast.Selection, i int) bool {
+	for _, sel := range ss {
 		f, ok := sel.(*ast.Field)
-		if ok && selectionSetHasFieldAliased(s, fieldResponseKey(f)) {
-			return false
+		if !ok {
+			s = append(s, sel)
+			continue
 		}
-		return true
 
-	})
-	return append(s, ss...)
+		existing := selectionSetFieldAliased(s, fieldResponseKey(f))
+		if existing == nil {
+			s = append(s, sel)
+			continue
+		}
+
+		// the same response key selected again: a leaf is already there,
+		// the sub-selections of an object are merged (GraphQL field merging)
+		if existing != f && len(existing.SelectionSet) > 0 && len(f.SelectionSet) > 0 {
+			existing.SelectionSet = addSelectionSetToSanitizedResult(existing.SelectionSet, f.SelectionSet...)
+		}
+	}
+	return s
+}
+
+// selectionSetFieldAliased returns the field of ss with the given response key
+func selectionSetFieldAliased(ss []ast.Selection, alias string) *ast.Field {
+	for _, selection := range ss {
+		field, ok := selection.(*ast.Field)
+		if ok && fieldResponseKey(field) == alias {
+			return field
+		}
+	}
+	return nil
 }
 
 // selectionSetHasFieldAliased reports whether ss already contains a field with the given response key
